@@ -277,9 +277,30 @@ def zombie_profile(rng, rec):
         rec["faults"].append(make_fault(rng, nid + 1, rng.choice(fault_kinds_for(knobs["keys"][k2])), k2))
 
 
+def duplicate_profile(rng, rec):
+    """C18: a big parallel request on a cold cache that names one (post-processed) uri twice, the second
+    time in a different pool chunk, so that two workers may handle the same cache file concurrently."""
+    knobs = rec["knobs"]
+    K = len(knobs["keys"])
+    m = rng.randint(6, min(11, K))
+    keys = rng.sample(range(K), m)
+    dup = keys[rng.randint(0, 4)]
+    if rng.random() < 0.8:
+        knobs["keys"][dup]["pp"] = True
+    keys.append(dup)
+    nid = max([o["id"] for o in rec["ops"] if isinstance(o["id"], int)] + [0]) + 1
+    rec["ops"].insert(0, {"id": nid, "op": "GET", "keys": keys, "dt": 1000})
+    if rng.random() < 0.5:
+        rec["ops"].insert(1, {"id": nid + 1, "op": "GET", "keys": [dup], "dt": 1000})
+    if knobs["sched"]["policy"] == "none":
+        knobs["sched"] = {"policy": "uniform"}
+
+
 def generate(prop, seed, profile=None):
     profile = profile or {}
     rng = random.Random(mix(seed, "gen", prop))
+    if prop == "C18" and "duplicates" not in profile and rng.random() < 0.05:
+        profile = dict(profile, duplicates=True, big_requests=True, parallel=True)
     if prop == "C19" and "zombie" not in profile and not profile.get("fault_free") and rng.random() < 0.15:
         profile = dict(profile, zombie=True, big_requests=True, parallel=True)
     knobs = gen_knobs(rng, prop, profile)
@@ -290,6 +311,8 @@ def generate(prop, seed, profile=None):
             op = rng.choice(ops)
             delta = rng.choice([-10**9, -60 * 10**9, -3600 * 10**9, -86400 * 10**9, 86400 * 10**9 * 5])
             rec["clock_events"].append({"op": op["id"], "at": rng.randint(0, 30), "delta": delta})
+    if prop == "C18" and profile.get("duplicates") and len(knobs["keys"]) >= 7:
+        duplicate_profile(rng, rec)
     if prop == "C19" and not profile.get("fault_free"):
         rec["faults"] = gen_faults(rng, knobs, ops)
         if profile.get("zombie") and len(knobs["keys"]) >= 6:
